@@ -815,7 +815,9 @@ func (sec *stdSecHandler) authenticate(passwd string) (Perm, error) {
 	if sec.R < 5 {
 		padded, err := padPasswd(passwd)
 		if err != nil {
-			return 0, err
+			// a password without a PDFDocEncoding form cannot be the one
+			// the file was protected with
+			return 0, &AuthenticationError{sec.ID}
 		}
 		err = sec.authenticateOwner(padded)
 		if err == nil {
@@ -828,7 +830,9 @@ func (sec *stdSecHandler) authenticate(passwd string) (Perm, error) {
 	} else {
 		prepared, err := utf8Passwd(passwd)
 		if err != nil {
-			return 0, err
+			// a password which SASLprep rejects cannot be the one the
+			// file was protected with
+			return 0, &AuthenticationError{sec.ID}
 		}
 		err = sec.authenticateOwner6(prepared)
 		if err == nil {
